@@ -422,7 +422,7 @@ func (h *Harness) runRegress(check string, run func(c json.RawMessage) *Failure)
 				fmt.Printf("NOTE property=%s known finding %q no longer reproduces (%s)\n", h.Prop, want, filepath.Base(file))
 			case knownFinding(h.Prop, f) != nil:
 				k := knownFinding(h.Prop, f)
-				fmt.Printf("KNOWN-FINDING: property=%s %s [sig=%s case=%s]\n", h.Prop, k.What, k.Sig, filepath.Base(file))
+				fmt.Printf("KNOWN-FINDING: property=%s %s [sig=%s]\n", h.Prop, k.What, k.Sig)
 				h.knownSeen[k.Sig]++
 			default:
 				h.violation(check, r.Case, f)
@@ -431,7 +431,7 @@ func (h *Harness) runRegress(check string, run func(c json.RawMessage) *Failure)
 		default:
 			if f != nil {
 				if k := knownFinding(h.Prop, f); k != nil {
-					fmt.Printf("KNOWN-FINDING: property=%s %s [sig=%s case=%s]\n", h.Prop, k.What, k.Sig, filepath.Base(file))
+					fmt.Printf("KNOWN-FINDING: property=%s %s [sig=%s]\n", h.Prop, k.What, k.Sig)
 					h.knownSeen[k.Sig]++
 				} else {
 					h.violation(check, r.Case, f)
